@@ -6,6 +6,7 @@ import (
 	"encoding/json"
 	"errors"
 	"fmt"
+	jsonv1 "github.com/go-json-experiment/json/v1"
 	"io"
 	"reflect"
 	"strconv"
@@ -734,6 +735,59 @@ func Run(r *evid.Run) {
 		}
 	})
 	r.Bound("code points: %d scalar values, alone and embedded", len(cps))
+	// one character the escape options speak about at every position of a run of plain bytes (word-at-a-time scanners)
+	{
+		c := newChecker()
+		var n int64
+		for total := 1; total <= 26; total++ {
+			for pos := 0; pos < total; pos++ {
+				for _, ch := range []string{"<", ">", "&", "\u2028", "\u2029", "\"", "\\", "\x1f", "\x7f", "\u00e9", "\xff"} {
+					s := strings.Repeat("a", pos) + ch + strings.Repeat("b", total-pos-1)
+					c.cur = Case{Kind: "gostring", Bytes: []byte(s)}
+					n++
+					if msg := c.goString(s, false); msg != "" {
+						report(r, c.cur, msg)
+					}
+				}
+			}
+		}
+		r.Evaluations.Add(n)
+		r.Nontrivial.Add(n)
+		r.Outcomes(c.paths)
+		r.Bound("positions: one of 11 characters (HTML, JS separators, quote, backslash, control, DEL, two-byte, ill-formed byte) at every position of every run of 1..26 plain bytes (%d strings) through every path", n)
+	}
+	// the v1 Encoder's switch: the last SetEscapeHTML call decides (on by default), U+2028/9 are always escaped
+	{
+		var n int64
+		for mask := 0; mask < 1<<4; mask++ {
+			for length := 0; length <= 4; length++ {
+				if mask>>length != 0 {
+					continue
+				}
+				n++
+				var bb bytes.Buffer
+				enc := jsonv1.NewEncoder(&bb)
+				html := true
+				var calls []string
+				for i := 0; i < length; i++ {
+					html = mask>>i&1 == 1
+					enc.SetEscapeHTML(html)
+					calls = append(calls, fmt.Sprint(html))
+				}
+				err := enc.Encode(map[string]any{"<k&>": []string{"<v>\u2028", "&\u2029"}})
+				out := bb.String()
+				rawHTML := strings.ContainsAny(out, "<>&")
+				escHTML := strings.Contains(out, `\u003c`) && strings.Contains(out, `\u003e`) && strings.Contains(out, `\u0026`)
+				rawJS := strings.ContainsAny(out, "\u2028\u2029")
+				if err != nil || rawHTML == html || escHTML != html || rawJS {
+					r.Violation(fmt.Sprintf("c11|v1-encoder|%v", calls), fmt.Sprintf("v1 Encoder after SetEscapeHTML calls %v writes %q (err=%v): HTML characters must be escaped = %v, U+2028/9 always", calls, out, err, html), Case{Kind: "v1-encoder", Text: strings.Join(calls, ",")}, nil)
+				}
+			}
+		}
+		r.Evaluations.Add(n)
+		r.Nontrivial.Add(n)
+		r.Bound("v1 Encoder: every sequence of <=4 SetEscapeHTML calls (%d) followed by Encode of names and strings holding <, >, &, U+2028, U+2029", n)
+	}
 	// struct member names (pre-quoted when the struct type is analysed) holding the characters the escape options speak about
 	{
 		c := newChecker()
